@@ -103,7 +103,19 @@ def coherent(v, p, w):
     return bad
 
 
+SCHEMA_MEMO = None      # cfg["share"]: structurally equal sub-schemas of one case are ONE packer object (packers are stateless, so
+                        # sharing an instance between positions / statements must not change anything)
+
+
 def mk_schema(j):
+    if SCHEMA_MEMO is not None:
+        key = json.dumps(j)
+        if key not in SCHEMA_MEMO: SCHEMA_MEMO[key] = mk_schema_(j)
+        return SCHEMA_MEMO[key]
+    return mk_schema_(j)
+
+
+def mk_schema_(j):
     if j[0] == "bool": return pk.PackBool()
     if j[0] == "intmod": return pk.PackIntMod(j[1])
     if j[0] == "list": return pk.PackList([mk_schema(x) for x in j[1]])
@@ -357,9 +369,10 @@ PYBOOL = False
 
 
 def run_case(case):
-    global PYBOOL
+    global PYBOOL, SCHEMA_MEMO
     PYBOOL = bool(case.get("pybool"))
     cfg = case["cfg"]; p = cfg["p"]
+    SCHEMA_MEMO = {} if cfg.get("share") else None
     R.reset(p)
     if REAL: p = R.P
     rt.guard = None; rt._ignore_errors = bool(cfg["ign"]); LinComb.ONE = ONE0
